@@ -26,14 +26,14 @@ RULE = (
 )
 ASSUMPTIONS = [
     "domain as in the statement: ASCII header values, text payloads",
-    "headers that curl / requests add themselves (Host, User-Agent, Accept, Accept-Encoding, Connection, Content-Length, Expect) and the test-case id are ignored",
+    "headers that curl / requests add themselves (Host, User-Agent, Accept, Accept-Encoding, Connection, Content-Length, Transfer-Encoding, Expect: message framing, not content) and the test-case id are ignored",
 ]
 MIN_EVALUATIONS = {"quick": 300, "thorough": 6000}
 MIN_NONTRIVIAL = {"quick": 200, "thorough": 3000}
 REACH_FLOORS = {"curl_executions": 300}
 SHARD_TIMEOUT = {"quick": 900, "thorough": 5400}
 
-IGNORED = {"host", "user-agent", "accept", "accept-encoding", "connection", "content-length", "expect", "x-schemathesis-testcaseid"}
+IGNORED = {"host", "user-agent", "accept", "accept-encoding", "connection", "content-length", "transfer-encoding", "expect", "x-schemathesis-testcaseid"}
 SPECIAL = "'\"\\$`;&|<>()! *?[]#~%{}"
 WORDS = ["a", "it's", 'say "hi"', "$HOME", "`id`", "a;b", "x&y", "p|q", "<tag>", "(x)", "back\\slash", "tab\there", "sp ace", "", "-d", "--data", "@file", "#frag", "100%", "né", "a=b", "*", "~", "$(id)", "\\n", "!!", "{}", "[1]"]
 
@@ -145,13 +145,14 @@ def run_shard(spec, emit):
             if method in ("POST", "PUT", "PATCH", "DELETE") and rng.random() < 0.85:
                 body_kind = rng.choice(["json", "text", "form", "multipart"])
                 if body_kind == "json":
-                    kwargs["body"] = {"k": rand_value(rng, ascii_only=False), "n": [1, rand_value(rng)], "q'": 'v"'}
+                    kwargs["body"] = rng.choice([{"k": rand_value(rng, ascii_only=False), "n": [1, rand_value(rng)], "q'": 'v"'}] * 3 + [{}, [], "", 0, None, False])
                     kwargs["media_type"] = "application/json"
                 elif body_kind == "text":
                     kwargs["body"] = rng.choice([rand_value(rng, allow_empty=False), "line1\nline2 'q'", "@/etc/hostname", "$HOME `id`", "--data-binary", "a=b&c=d", "tr\\ail"]) or "t"
                     kwargs["media_type"] = "text/plain"
                 elif body_kind == "form":
-                    kwargs["body"] = {"a": rand_value(rng), "b c": "it's & more"}
+                    # a form without fields serialises to no payload at all but still announces its content type
+                    kwargs["body"] = rng.choice([{"a": rand_value(rng), "b c": "it's & more"}, {}, {"e": []}, {"a": ""}])
                     kwargs["media_type"] = "application/x-www-form-urlencoded"
                 else:
                     kwargs["body"] = {"f": rand_value(rng), "g": "two\nlines"}
